@@ -344,6 +344,7 @@ type vConnRun struct {
 	nticks   int
 	ue0      int // UnlockErrorCount before the action in progress
 	uc0      int // UnLockCount before the action in progress
+	orderBad bool
 }
 
 func (x *vConnRun) report(sig, what string) {
@@ -943,6 +944,7 @@ func (x *vConnRun) closeEvidence(c *vConnC, pre vConnScan, preHolds map[int]bool
 				// the hold of the earlier will LOCK is still there
 				st := x.v.counters()
 				if int(st.UnlockErrorCount) > x.ue0 {
+					x.orderBad = true
 					x.report("C18:will-order", fmt.Sprintf("connection %d registered will LOCK %d before will UNLOCK %d, but the unlock failed and the hold remains: executed in the wrong order", c.idx, w.target, w.tok))
 				} else {
 					executed, why = false, fmt.Sprintf("hold %d (taken by an earlier will) on key %d is still there and no unlock failed", w.target, w.key)
@@ -977,6 +979,7 @@ func (x *vConnRun) closeEvidence(c *vConnC, pre vConnScan, preHolds map[int]bool
 					res = fmt.Sprintf(">%d", rc.idx)
 					x.routed(w.tok, rc.idx)
 					if last, ok := lastIdxAt[rc.idx]; ok && last > i {
+						x.orderBad = true
 						x.report("C18:will-order", fmt.Sprintf("connection %d received the reply of will %d before the reply of a will registered earlier: wills of connection %d were not executed in registration order", rc.idx, w.tok, c.idx))
 					}
 					lastIdxAt[rc.idx] = i
@@ -1016,7 +1019,12 @@ func (x *vConnRun) closeEvidence(c *vConnC, pre vConnScan, preHolds map[int]bool
 	if !c.stream.closed {
 		x.report("C18:leak-after-close", fmt.Sprintf("stream of closed connection %d is not closed", c.idx))
 	}
-	return "W[" + strings.Join(parts, ",") + "]"
+	ob := "W[" + strings.Join(parts, ",") + "]"
+	if x.orderBad {
+		ob += "!order"
+		x.orderBad = false
+	}
+	return ob
 }
 
 // frameOrder: reply frames triggered by the wills (grants of other connections' queued requests released by unlock
@@ -1045,6 +1053,7 @@ func (x *vConnRun) frameOrder(c *vConnC) {
 			if i, ok := idxOfKey[ti.key]; ok {
 				if i < last {
 					rc.rd.mu.Unlock()
+					x.orderBad = true
 					x.report("C18:will-order", fmt.Sprintf("connection %d was granted key %d (released by will #%d of connection %d) after a key released by a later will: wills not executed in registration order", rc.idx, ti.key, i+1, c.idx))
 					return
 				}
